@@ -18,11 +18,9 @@ func zzKeyBytes(name string, max int) []byte {
 	return b[:n]
 }
 
-//zz:harness unwind=80 panic=violation:M1.VerifyProof-never-panics maxpaths=200000 timebudget=1800 param.keybits=24
-//zz:reach M1.returned
-func ZZ_C16_M1_malformed_proof_no_panic() {
+func zzMalformedProof() {
 	s := &SMT{keyBitLength: zzParam("keybits", 8)}
-	n := zzConcrete(zzInt("proofLen"), 0, zzParam("proofnodes", 2))
+	n := zzConcrete(zzInt("proofLen"), zzParam("minnodes", 0), zzParam("proofnodes", 2))
 	var proof []*lib.Node
 	for i := 0; i < n; i++ {
 		proof = append(proof, &lib.Node{
@@ -36,6 +34,17 @@ func ZZ_C16_M1_malformed_proof_no_panic() {
 	_, _ = s.VerifyProof(k, v, membership, root, proof)
 	zzReach("M1.returned")
 }
+
+//zz:harness unwind=80 panic=violation:M1.VerifyProof-never-panics maxpaths=200000 timebudget=1800 param.keybits=24
+//zz:reach M1.returned
+func ZZ_C16_M1_malformed_proof_no_panic() { zzMalformedProof() }
+
+// M1b: the same for proofs of exactly three nodes (two tree levels, so the checks of the non-root
+// level are exercised) with node keys of up to 8 bits.
+//
+//zz:harness unwind=80 panic=violation:M1.VerifyProof-never-panics maxpaths=900000 timebudget=7200 param.keybits=24 param.proofnodes=3 param.keybytes=2 param.minnodes=3
+//zz:reach M1.returned
+func ZZ_C16_M1b_malformed_three_node_proof_no_panic() { zzMalformedProof() }
 
 // M3 completeness at tree level: for every present key the honest proof verifies as membership
 // of (key, value) and for an absent key as non-membership, against the tree's own root; and the
@@ -66,6 +75,12 @@ func ZZ_C16_M3_honest_proofs_verify() {
 		} else {
 			zzAssert("M3.absent-key-verifies-as-non-member", okN)
 			zzAssert("M3.absent-key-not-proved-member", !okM)
+			// ... nor with the value of any key that IS stored (the absent key's insertion point may be
+			// that key's leaf, whose value the proof carries)
+			for j := 0; j < n; j++ {
+				okJ, _ := s.VerifyProof(k, zzUserVal(j), true, root, proof)
+				zzAssert("M3.absent-key-not-proved-member-with-a-stored-value", !okJ)
+			}
 		}
 	}
 	zzReach("M3.done")
